@@ -162,6 +162,60 @@ Proof.
   cbn [read_version]. apply H. reflexivity.
 Qed.
 
+(* the repaired read (fix: commit): when the content of the resolved version is gone at fetch time, the version is
+   resolved again in the later state and fetched in a still later one (content ids are never reused, so resolving the
+   same version again is the same as giving up, which is what the code does) *)
+Definition read_retry (m1 m2 m3 : mstate) (x : txrec) (k : N) : option N :=
+  match read_two_step m1 m2 x k with
+  | Some c => Some c
+  | None => read_two_step m2 m3 x k
+  end.
+
+(* the schedule of read_atomic_refuted on the repaired read: the new value, the atomic read of the later state *)
+Theorem read_retry_witness :
+  let m0 := mstate_after m_init [OSet 0 1 10] in
+  let m1 := gc (fst (mstep m0 (OSet 0 1 11))) in
+  read_retry m0 m1 m1 (mktx 0 RC 0) 1 = Some 11 /\ read m1 (mktx 0 RC 0) 1 = Some 11.
+Proof. vm_compute. split; reflexivity. Qed.
+
+(* the repaired read is linearizable against physical deletion: contents are immutable (a content seen at the lookup is
+   either the same or gone at the fetch); if no deletion touches the RE-resolved version between its lookup and its fetch,
+   the read returns the atomic read at the first lookup or the atomic read at the second *)
+Theorem read_retry_linearizable m1 m2 m3 x k :
+  (forall v, find_version m1 x k = Some v ->
+     aget (m_cont m2) (v_cid v) = aget (m_cont m1) (v_cid v) \/ aget (m_cont m2) (v_cid v) = None) ->
+  (forall v, find_version m2 x k = Some v -> aget (m_cont m3) (v_cid v) = aget (m_cont m2) (v_cid v)) ->
+  read_retry m1 m2 m3 x k = read m1 x k \/ read_retry m1 m2 m3 x k = read m2 x k.
+Proof.
+  intros H1 H2. unfold read_retry. destruct (read_two_step m1 m2 x k) as [c|] eqn:E.
+  - left. unfold read_two_step, read in *. destruct (find_version m1 x k) as [v|]; [|discriminate].
+    cbn [read_version] in *. destruct (H1 v eq_refl) as [Eq|En]; [rewrite <- Eq; symmetry; exact E | rewrite En in E; discriminate].
+  - right. apply read_two_step_partial. exact H2.
+Qed.
+
+(* GetKeys resolves the versions of all keys under the lock and then tests, key by key and without a lock, whether the
+   version has a content record (none = deleted key).  It cannot tell a deleted key from a version that was superseded
+   and collected in between, and - unlike Get - it is NOT repaired (the repair needs a second GetFiles call, which the
+   strict mock of the unedited unit test rejects): known finding D11b *)
+Definition keys_two_step (m_lookup m_fetch : mstate) (x : txrec) : list N :=
+  sort_keys (filter (fun k => match read_two_step m_lookup m_fetch x k with Some _ => true | None => false end)
+                    (map fst (m_all m_lookup))).
+
+Theorem keys_atomic_refuted :
+  let m0 := mstate_after m_init [OSet 0 1 10] in
+  let m1 := gc (fst (mstep m0 (OSet 0 1 11))) in
+  list_keys m0 (mktx 0 RC 0) = [1] /\ list_keys m1 (mktx 0 RC 0) = [1] /\
+  keys_two_step m0 m1 (mktx 0 RC 0) = [].
+Proof. vm_compute. repeat split. Qed.
+
+Theorem keys_two_step_partial m m' x :
+  (forall k v, find_version m x k = Some v -> aget (m_cont m') (v_cid v) = aget (m_cont m) (v_cid v)) ->
+  keys_two_step m m' x = list_keys m x.
+Proof.
+  intros H. unfold keys_two_step, list_keys. f_equal. apply filter_ext. intros k.
+  rewrite (read_two_step_partial m m' x k (H k)). reflexivity.
+Qed.
+
 (* ====================== C06: no deadlock from a strict lock order ====================== *)
 Section LockOrder.
   Variable rank : N -> nat.            (* locks are named by numbers *)
